@@ -9,7 +9,7 @@ import gen, s4, lang, thstruct
 from props import c01
 
 PROP_FILE = 'Props/C03.v'
-GROUPS = ['imain', 'theory']
+GROUPS = ['imain', 'theory', 'reps']
 LEAF_LEMMAS = ['tel_clauses_spec', 'boolean_clauses_spec', 'make_equal_spec', 'make_disjunction_spec', 'prev_guards_spec', 'next_guards_spec', 'telp_guards_spec']
 ASSUMPTIONS = ['gringo/clasp contract G1-G6 (DESIGN.md 5.3)',
                'the operational model BodyTheoryFull covers every &tel and &del formula class; where telingo takes the first attached theory literal as the literal of a (formula, state) pair the model keeps a choice atom of its own (an equality that holds by construction; the ties are compared)']
